@@ -592,7 +592,11 @@ where T: Canon + Deserialize<'static>
     let mut d = minicbor_serde::Deserializer::new(input);
     let r = T::deserialize(&mut d);
     let pos = d.decoder().position();
-    let verdict = if pos > inp.len() { Err(format!("position {} beyond input", pos)) } else { Ok(()) };
+    // the convenience entry point must agree with the explicit Deserializer
+    let r2: Result<T, _> = minicbor_serde::from_slice(input);
+    let same = match (&r, &r2) { (Ok(a), Ok(b)) => a.show() == b.show(), (Err(a), Err(b)) => classify_text(&a.to_string()) == classify_text(&b.to_string()), _ => false };
+    let verdict = if pos > inp.len() { Err(format!("position {} beyond input", pos)) }
+                  else if !same { Err("minicbor_serde::from_slice disagrees with Deserializer::new + deserialize".into()) } else { Ok(()) };
     with_oracle(show_sres(r, pos, |x| x.show()), verdict)
 }
 
